@@ -14,6 +14,12 @@ CHECKS = {
          'TLC checks Conservation / PutVolumeOK / PutIndependence on spec/Trash.tla and enumerates the put transitions of the configuration lattice (and of trash directories that already hold same-named entries, orphans, strays, junk); every executed edge is a real trash-put on a real file system whose projected post-state (objects recognised by digest of bytes, tree, links, modes, mtimes) must equal the specification post-state, with the operation trace showing no successful mutation outside the trash for a failed argument. Model checking is the right level because the property is a universally quantified frame law over spellings x kinds x layouts.', '5 C01'),
  'C02': ('cmdspec', 'TLC-simulated histories replayed with real commands + TLC trace validation (TrashTrace)',
          'Behaviours of Sim_Trash.tla are replayed step by step with the real trash-put / trash-restore / trash-rm / trash-empty; after every step the projection must equal the behaviour state; observed steps are re-judged by TLC against Trash.tla (TrashTrace). Round trip = identical digest at the identical location.', '5 C02'),
+ 'C04': ('opspec', 'TLC on PutOps.tla (all interleavings of 2-3 processes) + lock-step schedules of real trash-put processes judged by TLC (FsTrace)',
+         'PutOps.tla is checked exhaustively by TLC (NoOverwrite, UniqueOwnership, InfoBeforePayload, NothingLost, FinalStateIsC01, AllSucceed, PreKept, Termination). Real processes are run under every schedule with up to 2 (thorough: 3, sampled) pre-emptions at operation granularity; the state after every operation is projected and TLC evaluates the same invariants on it; plus 130+ sequential same-named puts. Model checking is the level the schedule quantifier needs.', '5 C04'),
+ 'C05': ('opspec', 'TLC invariants of PutOps.tla in every reachable state + kill of the real trash-put before every operation, judged by TLC (FsTrace)',
+         'InfoBeforePayload and NothingLost are invariants of every reachable state of PutOps.tla; the real trash-put is killed before each of its operations (all of them, incl. the per-file steps of the cross-volume copy + delete) in 13 scenarios and TLC evaluates the invariants on each post-kill on-disk state.', '5 C05'),
+ 'C17': ('opspec', 'TLC on PutOps.tla with one-shot and persistent faults (safety + Termination) + errno injection at every operation of the real trash-put, judged by TLC (FsTrace)',
+         'Faults are actions of PutOps.tla; TLC checks FinalStateIsC01 and Termination with 1-2 one-shot faults and sticky faults. The real trash-put is run with each errno injected at each operation, one-shot and sticky (thorough: sampled pairs); termination within an operation budget and the final state (TLC: FinalStateIsC01, NothingLost, NoOverwrite) are checked. Two known findings.', '5 C17'),
  'C06': ('cmdspec', 'TLC-generated restore transitions over occupied destinations, run on the real trash-restore',
          'TLC enumerates restore edges with the destination free or occupied by each kind, each kind of trashed entry, one- and two-index replies, with and without --overwrite; the real run must end in one of the specification post-states (refusal leaves occupant and entry untouched; overwrite replaces a non-directory).', '5 C06'),
  'C07': ('cmdspec', 'TLC enumeration of the configuration lattice + real trash-put with operation trace',
